@@ -99,10 +99,18 @@ struct sinks_t
 {
   std::array<std::ostringstream, NLEVELS> s;
 };
-inline l::level_stream_array make_streams(sinks_t &sinks)
+// kinds[level]: 0 = the default level formatter ("level: " + text + newline), 1 = NO formatter (the level stream adds
+// nothing: the text is what the logger's own chain makes of the message), 2 = a custom formatter "[text]"
+using stream_kinds = std::array<int, NLEVELS>;
+inline l::level_stream_array make_streams(sinks_t &sinks, stream_kinds const &kinds = stream_kinds{})
 {
   return fcppt::enum_::array_init<l::level_stream_array>([&](l::level lv) {
-    return l::level_stream(sinks.s[static_cast<std::size_t>(lv)], l::format::optional_function{l::format::default_level(lv)});
+    int const k = kinds[static_cast<std::size_t>(lv)];
+    return l::level_stream(
+        sinks.s[static_cast<std::size_t>(lv)],
+        k == 0   ? l::format::optional_function{l::format::default_level(lv)}
+        : k == 1 ? l::format::optional_function{}
+                 : l::format::optional_function{l::format::function{[](fcppt::string const &t) { return fcppt::string("[") + t + "]"; }}});
   });
 }
 }
